@@ -191,7 +191,7 @@ class Executor:
             self.pc.append(goal)
 
     def check_internal(self, what, goal):
-        self.check("engine.side-condition: " + what, goal, what)
+        self.check(f"{getattr(self, 'target_short', '')}.engine.side-condition: " + what, goal, what)
 
     def _decide(self, n, feas, note):
         """n-way decision; feas(i) -> is branch i feasible"""
@@ -569,6 +569,16 @@ class Executor:
         return self.lookup(node.id, frame)
 
     def e_JoinedStr(self, node, frame):
+        # the text is not modelled, but the pieces are evaluated (they may
+        # raise), and formatting None with a format specification is a
+        # TypeError (NoneType.__format__ accepts only the empty one)
+        for part in node.values:
+            if isinstance(part, ast.FormattedValue):
+                v = self.eval(part.value, frame)
+                spec = part.format_spec
+                if spec is not None and any(not (isinstance(x, ast.Constant) and x.value == "")
+                                            for x in spec.values) and v is None:
+                    self.raise_builtin(TypeError, "unsupported format string passed to NoneType.__format__")
         return OpaqueStr()
 
     @staticmethod
@@ -898,6 +908,11 @@ class Executor:
         f = node.func
         if isinstance(f, ast.Attribute) and isinstance(f.value, ast.Name) \
                 and f.value.id == "logging":
+            # A-LOG: the logging call itself has no effect; its arguments are
+            # evaluated first, as Python does (an f-string may raise)
+            for a in node.args:
+                if isinstance(a, ast.JoinedStr):
+                    self.eval(a, frame)
             return None
         if isinstance(f, ast.Name) and f.id == "super" and not node.args:
             return _Super(frame)
